@@ -256,12 +256,22 @@ type Action struct {
 // scenario's own actions; the tape picks. It ends when more() is false, a
 // violation is recorded, or the step budget is exhausted.
 func (w *World) Loop(maxSteps int, ticketW int, more func() bool, extra func() []Action) {
+	// In half of the runs the scheduler is "sticky": it prefers to keep
+	// running the task it ran last, so that one task can complete several
+	// operations while another stays parked in the middle of one. A uniform
+	// choice at every step explores such schedules only very rarely.
+	sticky := w.T.Bool(1, 2)
+	var last *kernel.Task
 	for step := 0; step < maxSteps && !w.S.Failed() && more(); step++ {
 		_, en := w.S.Tickets()
 		var acts []Action
 		for _, tk := range en {
 			tk := tk
-			acts = append(acts, Action{W: ticketW, Name: "run " + tk.String(), Do: func() { w.S.Release(tk) }})
+			wt := ticketW
+			if sticky && tk.Task == last {
+				wt *= 8
+			}
+			acts = append(acts, Action{W: wt, Name: "run " + tk.String(), Do: func() { last = tk.Task; w.S.Release(tk) }})
 		}
 		acts = append(acts, extra()...)
 		if len(acts) == 0 {
